@@ -8,6 +8,7 @@
 from __future__ import annotations
 
 import copy
+import itertools
 from collections import Counter
 from functools import wraps
 from typing import TYPE_CHECKING
@@ -29,11 +30,34 @@ if TYPE_CHECKING:
     )
 
 
-def _cache_key_func(system: System, method: Callable) -> tuple[str, int]:
+_system_token_counter = itertools.count()
+
+
+def _system_token(system: System) -> tuple[int, int]:
+    """Token identifying a system object in cache keys.
+
+    The identity `id(system)` alone is not sufficient as identities of objects which
+    have been garbage collected are reused, so that a new system could be served the
+    values a previous system cached in a state. The identity is therefore paired with a
+    value of a counter which is never reused, recorded on the system object. The
+    identity is checked as (shallow, deep or pickled) copies of a system carry the
+    attributes of the original but are distinct systems.
+    """
+    attributes = getattr(system, "__dict__", None)
+    if attributes is None:
+        return (id(system), -1)
+    token = attributes.get("_state_cache_token")
+    if token is None or token[0] != id(system):
+        token = (id(system), next(_system_token_counter))
+        attributes["_state_cache_token"] = token
+    return token
+
+
+def _cache_key_func(system: System, method: Callable) -> tuple[str, tuple[int, int]]:
     """Construct cache key for a given system and method pair."""
     if not isinstance(method, str):
         method = method.__name__
-    return (f"{type(system).__name__}.{method}", id(system))
+    return (f"{type(system).__name__}.{method}", _system_token(system))
 
 
 def _copy_if_state_variable(value: Any, state: ChainState) -> Any:  # noqa: ANN401
